@@ -421,6 +421,7 @@ pub fn flush_counts<W: WorldOps>(e: &mut Engine<W>, pc: &ProbeCounts) {
     e.rep.add("stale_probes_after_reuse", pc.stale_after_reuse);
     e.rep.add("stale_probes_after_2plus_reuses", pc.stale_after_2plus_reuses);
     e.rep.add("rows_compared", pc.rows_compared);
+    e.rep.add("wrong_archetype_probes", pc.wrong_archetype);
     for (k, v) in pc.directs_by_source.iter() {
         e.rep.add(&format!("direct_source|{k}"), *v);
     }
